@@ -19,7 +19,6 @@ LH = ('R7', r'head_\.load\(std::memory_order_(\w+)\)', r'LOAD_HEAD(MO_\1)')
 LT = ('R7', r'tail_\.load\(std::memory_order_(\w+)\)', r'LOAD_TAIL(MO_\1)')
 SH = ('R7', r'head_\.store\((.*?),\s*std::memory_order_(\w+)\);', r'A_STORE_idx(&self->head_, \1, MO_\2);')
 ST = ('R7', r'tail_\.store\((.*?),\s*std::memory_order_(\w+)\);', r'A_STORE_idx(&self->tail_, \1, MO_\2);')
-EA = ('R17', r'(?<![\w.>])elementAt\(', 'elementAt(self, ')
 
 
 def probe(ctx, cap, roundup):
@@ -32,33 +31,46 @@ def probe(ctx, cap, roundup):
     return int(subprocess.run([exe], capture_output=True, text=True).stdout)
 
 
+# element accesses: every placement-new / move-out / destructor on ring storage is rendered through S_* accessors that assert, at
+# the access itself, that the slot belongs to this role right now (consumer: published and not yet released; producer: free)
+ELEM = [('R9', r'T\*\s+elem\s*=\s*elementAt\((\w+)\);', r'T_cell* elem = elementAt(self, \1);'),
+        ('R12', r'new\s*\(elementAt\((\w+)\)\)\s*T\(std::move\(item\)\);', r'S_construct_at(self, elementAt(self, \1), T_move_from(item));'),
+        ('R12', r'new\s*\(elementAt\((\w+)\)\)\s*T\(item\);', r'S_construct_at(self, elementAt(self, \1), T_read(item));'),
+        ('R12', r'new\s*\(elementAt\((\w+)\)\)\s*T\(std::forward<Args>\(args\)\.\.\.\);', r'S_construct_at(self, elementAt(self, \1), args);'),
+        ('R12', r'new\s*\(elementAt\((\w+)\)\)\s*T\(std::move\(\*first\)\);', r'S_construct_at(self, elementAt(self, \1), T_move_from(&src[first]));'),
+        ('R12', r'new\s*\(storage\)\s*T\(std::move\(\*elementAt\((\w+)\)\)\);', r'T_construct_at(storage, S_move_from(self, elementAt(self, \1)));'),
+        ('R12', r'new\s*\(storage\)\s*T\(std::move\(\*elem\)\);', 'T_construct_at(storage, S_move_from(self, elem));'),
+        ('R12', r'\*dest\s*=\s*std::move\(\*elementAt\((\w+)\)\);', r'dst[dest].value = S_move_from(self, elementAt(self, \1));'),
+        ('R12', r'\*dest\s*=\s*std::move\(\*elem\);', 'dst[dest].value = S_move_from(self, elem);'),
+        ('R12', r'(?<![\w.>*])item\s*=\s*std::move\(\*elementAt\((\w+)\)\);', r'item->value = S_move_from(self, elementAt(self, \1));'),
+        ('R12', r'(?<![\w.>*])item\s*=\s*std::move\(\*elem\);', 'item->value = S_move_from(self, elem);'),
+        ('R12', r'elementAt\((\w+)\)->~T\(\);', r'S_destroy_at(self, elementAt(self, \1));'),
+        ('R12', r'elem->~T\(\);', 'S_destroy_at(self, elem);'),
+        ('R3', r'std::min\(available,\s*maxCount\)', 'MIN_auto(available, maxCount)')]
+
+
+def opt(subs):
+    return [x + ('opt',) if len(x) == 3 else x for x in subs]
+
+
 def build(ctx):
     r = ctx.repo
     ctx.emit('increment.body.inc', r.function(F, r'static\s+constexpr\s+size_t\s+increment\s*\(\s*size_t\s+index\s*\)\s*noexcept', within=CLS))
-    ctx.emit('Ring_try_push_move.body.inc', r.function(F, r'bool\s+try_push\s*\(\s*T&&\s*item\s*\)', within=CLS), must_fire=['R7', 'R12'],
-             subs=[LH, LT, ST, ('R12', r'new\s*\(elementAt\(currentTail\)\)\s*T\(std::move\(item\)\);', 'T_construct_at(elementAt(self, currentTail), T_move_from(item));', 1)])
-    ctx.emit('Ring_try_push_copy.body.inc', r.function(F, r'bool\s+try_push\s*\(\s*const\s+T&\s*item\s*\)', within=CLS), must_fire=['R7', 'R12'],
-             subs=[LH, LT, ST, ('R12', r'new\s*\(elementAt\(currentTail\)\)\s*T\(item\);', 'T_construct_at(elementAt(self, currentTail), T_read(item));', 1)])
-    ctx.emit('Ring_try_emplace.body.inc', r.function(F, r'bool\s+try_emplace\s*\(\s*Args&&\.\.\.\s*args\s*\)', within=CLS), must_fire=['R7', 'R12'],
-             subs=[LH, LT, ST, ('R12', r'new\s*\(elementAt\(currentTail\)\)\s*T\(std::forward<Args>\(args\)\.\.\.\);', 'T_construct_at(elementAt(self, currentTail), args);', 1)])
-    pop_common = [LH, LT, SH, ('R9', r'T\*\s+elem\s*=\s*elementAt\(currentHead\);', 'T_cell* elem = elementAt(self, currentHead);', 1),
-                  ('R12', r'elem->~T\(\);', 'T_destroy_at(elem);', 1)]
-    ctx.emit('Ring_try_pop_ref.body.inc', r.function(F, r'bool\s+try_pop\s*\(\s*T&\s*item\s*\)', within=CLS), must_fire=['R7', 'R12'],
-             subs=pop_common + [('R12', r'item\s*=\s*std::move\(\*elem\);', 'item->value = T_move_from(elem);', 1)])
-    ctx.emit('Ring_try_pop_into.body.inc', r.function(F, r'bool\s+try_pop_into\s*\(\s*T\*\s*storage\s*\)', within=CLS), must_fire=['R7', 'R12'],
-             subs=pop_common + [('R12', r'new\s*\(storage\)\s*T\(std::move\(\*elem\)\);', 'T_construct_at(storage, T_move_from(elem));', 1)])
-    ctx.emit('Ring_try_push_batch.body.inc', r.function(F, r'size_type\s+try_push_batch\s*\(\s*InputIt\s+first\s*,\s*InputIt\s+last\s*\)', within=CLS), must_fire=['R7', 'R12'],
-             subs=[LH, LT, ST, ('R12', r'new\s*\(elementAt\(tailPos\)\)\s*T\(std::move\(\*first\)\);', 'T_construct_at(elementAt(self, tailPos), T_move_from(&src[first]));', 1)])
-    ctx.emit('Ring_try_pop_batch.body.inc', r.function(F, r'size_type\s+try_pop_batch\s*\(\s*OutputIt\s+dest\s*,\s*size_type\s+maxCount\s*\)', within=CLS), must_fire=['R7', 'R12', 'R3'],
-             subs=[LH, LT, SH, ('R9', r'T\*\s+elem\s*=\s*elementAt\(headPos\);', 'T_cell* elem = elementAt(self, headPos);', 1),
-                   ('R12', r'\*dest\s*=\s*std::move\(\*elem\);', 'dst[dest].value = T_move_from(elem);', 1),
-                   ('R12', r'elem->~T\(\);', 'T_destroy_at(elem);', 1),
-                   ('R3', r'std::min\(available,\s*maxCount\)', 'MIN_auto(available, maxCount)', 1)])
-    ctx.emit('Ring_empty.body.inc', r.function(F, r'bool\s+empty\s*\(\s*\)\s*const', within=CLS), must_fire=['R7'], subs=[LH, LT])
-    ctx.emit('Ring_full.body.inc', r.function(F, r'bool\s+full\s*\(\s*\)\s*const', within=CLS), must_fire=['R7'], subs=[LH, LT])
-    ctx.emit('Ring_size.body.inc', r.function(F, r'size_type\s+size\s*\(\s*\)\s*const', within=CLS), must_fire=['R7'], subs=[LH, LT])
-    ctx.emit('Ring_dtor.body.inc', r.function(F, r'~SPSCRingBuffer\s*\(\s*\)', within=CLS), must_fire=['R7', 'R12'],
-             subs=[LH, LT, ('R12', r'elementAt\(head\)->~T\(\);', 'T_destroy_at(elementAt(self, head));', 1)])
+    def em(name, sig, must=('R7', 'R12')):
+        pc = r.function(F, sig, within=CLS)
+        X.inline_helpers(r, F, pc, within=CLS, exclude={'elementAt', 'increment', 'T'})
+        ctx.emit(name + '.body.inc', pc, must_fire=list(must), subs=opt([LH, LT, SH, ST]) + opt(ELEM))
+    em('Ring_try_push_move', r'bool\s+try_push\s*\(\s*T&&\s*item\s*\)')
+    em('Ring_try_push_copy', r'bool\s+try_push\s*\(\s*const\s+T&\s*item\s*\)')
+    em('Ring_try_emplace', r'bool\s+try_emplace\s*\(\s*Args&&\.\.\.\s*args\s*\)')
+    em('Ring_try_pop_ref', r'bool\s+try_pop\s*\(\s*T&\s*item\s*\)')
+    em('Ring_try_pop_into', r'bool\s+try_pop_into\s*\(\s*T\*\s*storage\s*\)')
+    em('Ring_try_push_batch', r'size_type\s+try_push_batch\s*\(\s*InputIt\s+first\s*,\s*InputIt\s+last\s*\)')
+    em('Ring_try_pop_batch', r'size_type\s+try_pop_batch\s*\(\s*OutputIt\s+dest\s*,\s*size_type\s+maxCount\s*\)', must=('R7', 'R12', 'R3'))
+    em('Ring_empty', r'bool\s+empty\s*\(\s*\)\s*const', must=('R7',))
+    em('Ring_full', r'bool\s+full\s*\(\s*\)\s*const', must=('R7',))
+    em('Ring_size', r'size_type\s+size\s*\(\s*\)\s*const', must=('R7',))
+    em('Ring_dtor', r'~SPSCRingBuffer\s*\(\s*\)')
     S = 'specs/c35_spsc.c'
     units = []
     insts = [(1, True), (2, False), (3, True)] if ctx.tier == 'quick' else [(1, True), (2, False), (3, True), (5, False), (15, True)]
@@ -70,7 +82,7 @@ def build(ctx):
                       assumptions=['slot loops of the interference step, harness and destructor are bounded by the constant kBufferSize: unwound completely'])
         units.append(Unit('increment', 'cbmc', S, 'increment', expect=[r'postcondition'], defines=d, inst=inst))
         for fn in ('Ring_try_push_move', 'Ring_try_push_copy', 'Ring_try_emplace', 'Ring_try_pop_ref', 'Ring_try_pop_into', 'Ring_try_push_batch', 'Ring_try_pop_batch'):
-            units.append(Unit(fn.replace('Ring_', 'SPSC.'), 'cbmc', S, fn, expect=[r'postcondition\.3', r'T_construct_at\.assertion|T_destroy_at\.assertion'], **common))
+            units.append(Unit(fn.replace('Ring_', 'SPSC.'), 'cbmc', S, fn, expect=[r'postcondition\.3', r'T_construct_at\.assertion|T_destroy_at\.assertion', r'own_check\.assertion'], **common))
         for fn in ('Ring_empty', 'Ring_full', 'Ring_size', 'Ring_dtor'):
             units.append(Unit(fn.replace('Ring_', 'SPSC.'), 'cbmc', S, fn, expect=[r'postcondition'], **common))
     return units
